@@ -66,7 +66,12 @@ def kv(line):
 
 
 def check_bytes(chk, impl, model, cases):
-    rc, out, err = vlib.run_lines(impl, cases)
+    rc, out, err = vlib.run_lines(impl, cases, timeout=180)
+    if rc == 124:   # the harness does not come back: name the hanging request (each alone, short limit) -> a finding
+        for c in cases:
+            if vlib.run_lines(impl, [c], timeout=10)[0] == 124:
+                return [(c, 'HANG: the library does not return within 10 s', '')]
+        return [(cases[0], 'HANG: %d requests do not finish within 180 s (each alone does)' % len(cases), '')]
     if len(out) != len(cases):
         raise vlib.BuildError('c03_thunk: %d answers for %d requests: %s' % (len(out), len(cases), err[-300:]))
     mlines, idx = [], []
